@@ -58,6 +58,9 @@ def run_suite(filter_expr=None):
         name = "%s::%s" % (m.group(2), m.group(3))
         name = name.replace("::main ", "::main::")
         (passed if m.group(1) in ("PASS", "LEAK") else failed).add(name)
+    m = re.search(r"Summary \[[^\]]*\]\s+(\d+) tests? run: (\d+) passed(?: \((\d+) [a-z]+\))?(?:, (\d+) failed)?", out)
+    summary = {"run": int(m.group(1)), "passed": int(m.group(2)), "failed": int(m.group(4) or 0)} if m else None
+    run_suite.last_summary = summary
     return rc, out, passed, failed
 
 
@@ -79,13 +82,15 @@ def confirm(d):
     rc, out, passed, failed = run_suite()
     res["with_patch_s"] = round(time.time() - t0)
     open(d + "/suite_with_patch.log", "w").write(out[-200000:])
-    if not passed and not failed:
+    summ = run_suite.last_summary
+    if summ is None:
         return {"ok": False, "why": "suite did not run (compile error?)", "tail": out[-1500:]}
+    res["summary_with_patch"] = summ
     base_broken = sorted(n for n in failed if n in STABLE)
     new_fail = sorted(n for n in failed if n not in STABLE and n not in ALWAYS_FAIL)
     res["existing_tests_failing_with_patch"] = base_broken
     res["demo_tests_failing_with_patch"] = new_fail
-    res["passed_with_patch"] = len(passed)
+    res["passed_with_patch"] = summ["passed"]
     if base_broken:
         # re-run them once: flaky?
         expr = " + ".join("test(%s)" % n.split("::", 2)[-1] for n in base_broken[:20])
@@ -106,9 +111,11 @@ def confirm(d):
     expr = " + ".join("test(%s)" % n.split("::", 2)[-1] for n in new_fail)
     rc3, out3, p3, f3 = run_suite(expr)
     open(d + "/demo_without_patch.log", "w").write(out3[-100000:])
-    res["demo_tests_passing_without_patch"] = sorted(p3)
+    summ3 = run_suite.last_summary or {"run": 0, "passed": 0, "failed": 0}
+    res["summary_demo_without_patch"] = summ3
+    res["demo_tests_passing_without_patch"] = summ3["passed"]
     res["demo_tests_failing_without_patch"] = sorted(f3)
-    res["ok"] = bool(p3) and not f3
+    res["ok"] = summ3["passed"] >= len(new_fail) and summ3["failed"] == 0 and not f3
     if not res["ok"]:
         res["why"] = "demonstration does not pass on the unmodified tree"
     return res
